@@ -74,7 +74,7 @@ TOL_REF32 = {3: 3e-3, 5: 1e-4, 7: 1e-4, 9: 1e-4, 13: 3e-4}
 TOL_DOUBLE = 1e-13
 TOL_HILBERT = 1e-13
 TOL_PRIOR64 = 1e-10         # observed worst 3.0e-12 (general exponential prior, order 9)
-TOL_PRIOR32 = 1e-4          # observed worst 9.0e-6
+TOL_PRIOR32 = 1e-4          # x max(1, h); observed worst 9.0e-6 for h <= 1, 4.7e-4 at h = 15 (order 5, q = 4)
 
 
 def tol_iwp_q(q):
@@ -1244,7 +1244,9 @@ def main():
             if "error" in r:
                 ck.report(sig, f"{c['prior']} prior (float32) raised {r['error']}", {"case": jc, "impl": r})
                 continue
-            mism = prior_compare(c, r, TOL_PRIOR32)
+            # float32: the loss grows like 2^num * eps32 with the number of doublings, i.e. proportionally to ||drift * h|| (see the
+            # note at TOL_REF32): the tolerance is scaled with the step (observed on the unchanged tree: 4.7e-4 at q = 4, h = 15)
+            mism = prior_compare(c, r, TOL_PRIOR32 * max(1.0, float(c["h"])))
             if mism:
                 ck.report(sig, f"{c['prior']} prior (float32, order {r['order']}) q={c['q']} d={c['d']} h={float(c['h'])!r}: {mism}",
                           {"case": jc, "impl": r, "mismatch": mism})
